@@ -883,13 +883,17 @@ def distribute(x1, x2, spacing, r, rotate):
     act_num_col = int(dx // spacing)
     act_space = dx / act_num_col
     tolerance = 1e-8
+    step = [act_space * cos(rotate), act_space * sin(rotate)]
+    if (x2[0] - x1[0]) * step[0] + (x2[1] - x1[1]) * step[1] < 0:
+        # at rotate = -pi/2 the order of the row's end points depends on rounding noise: always walk from x1 towards x2
+        step = [-step[0], -step[1]]
     while (
         sqrt((current_x[0] - x2[0]) * (current_x[0] - x2[0]) + (current_x[1] - x2[1]) * (current_x[1] - x2[1]))
     ) >= tolerance:
         if len(r) == 0 or not (r[len(r) - 1][0] == current_x[0] and r[len(r) - 1][1] == current_x[1]):
             r[len(r)] = [current_x[0], current_x[1]]
-        current_x[0] += act_space * cos(rotate)
-        current_x[1] += act_space * sin(rotate)
+        current_x[0] += step[0]
+        current_x[1] += step[1]
     if not (r[len(r) - 1][0] == x2[0] and r[len(r) - 1][1] == x2[1]):
         r[len(r)] = [x2[0], x2[1]]
     return
